@@ -61,6 +61,7 @@ class Contract(object):
     self.uf = {}
     self.obj_lt = {}
     self.hooks = {}                        # ("in"|"set"|"attr"|"method", kind[, name]) -> fn
+    self.closure_env = None                # callable(args) -> {name: value} for closure variables
     self.custom_concretize = None          # callable(contract, ob, model, ev) -> args dict
     self.raw_axioms = None                 # callable(interp) -> [z3 Bool] assumed
     self._loc = None
@@ -202,6 +203,9 @@ def run_paths(contract, registry=None, concrete_args=None, max_paths=4000, timeo
       for name, clause in contract.requires.items():
         ctx.assume(ip._bt(ip.eval_spec(clause, dict(ip.old_env))))
       fr = _function_frame(ip, contract, fv, args)
+      if contract.closure_env is not None:      # names the function reads from enclosing scopes
+        for k, v in contract.closure_env(args).items():
+          fr.env.setdefault(k, v)
       witness = dict(args)
       result, exc = None, None
       try:
